@@ -367,6 +367,12 @@ StringDictionaryHHTFC::StringDictionaryHHTFC(IteratorDictString *it,
   delete builderHT;
   tableHU = builderHU->getTable();
   delete builderHU;
+
+  // The coders also decode: give them their tables, as load() does
+  delete coderHT;
+  coderHT = new StatCoder(tableHT, codewordsHT);
+  delete coderHU;
+  coderHU = new StatCoder(tableHU, codewordsHU);
 }
 
 unsigned long StringDictionaryHHTFC::locate(uchar *str, uint strLen) {
